@@ -9,7 +9,9 @@ Driver entry for C18.
                 ev    = ug:<ns>/<name>:<class> | dg:<ns>/<name> | uc:<class> | dc:<class> | crd
   output     :  one observation per batch joined by ';' (`step`, the code in the tree) + ` ## ` + the same for
                 `stepPreFix` (removal loop before commit bb91ad6, regression detector):  `P=<key>><dep>,…&D=<name>^<sel>^<pod>^<arg|arg…>,…&S=<gc>:<type>/<T|F>/<reason>+…,…&G=<key>:<class>,…&C=<gc>,…&N=<nextID>&X=<crash|->`
-  judge line :  `gc=<name> snaps=<snap;snap;…>`  — the CLUSTER as listed through the fake client after each batch
+  dns line   :  `<ns>/<name>`  → `<dnsLabel ns 0|1><dnsSubdomain name 0|1>` (compared with apimachinery's validators)
+  judge line :  `gc=<name> [tmpl=<arg|arg|…>] snaps=<snap;snap;…>`  — the CLUSTER as listed through the fake client after each
+                batch; tmpl = container args of the manifest as yaml.Unmarshal yields them (read by the harness, not by the handler)
                 snap = `G=<key>:<class>,…&C=<gc>:<ours 0|1>:<type>/<T|F>/<reason>+…,…&D=<name>^<sel>^<pod>^<args>,…&X=<panic class|->`
   output     :  `ok` | `ok precondition` | `fail <clause>,<clause>…`
 -/
@@ -136,6 +138,22 @@ def parseSnap (s : String) : Option Snap :=
 def gwFlagS : String := "--gateway="
 def lockFlagS : String := "--leader-election-lock-name="
 def updFlagS : String := "--update-gatewayclass-status=false"
+def updPrefixS : String := "--update-gatewayclass-status="
+
+def lockArgs (args : List String) : List String := args.filter (·.startsWith lockFlagS)
+
+/-- the args that `prepareDeployment` must hand through untouched -/
+def plainArgs (args : List String) : List String :=
+  args.filter (fun a => !a.startsWith gwFlagS && !a.startsWith updPrefixS && !a.startsWith lockFlagS)
+
+/-- pairs (i<j) of Deployments of DIFFERENT Gateways that carry a common lock-name arg; `sameName` selects the pairs
+whose Gateways have the same name (in different namespaces) -/
+def sharedLock (deps : List (String × List String)) (sameName : Bool) : Bool :=
+  match deps with
+  | [] => false
+  | (t, l) :: rest =>
+    rest.any (fun (t', l') => t != t' && l.any (fun a => l'.contains a) &&
+      (((t.splitOn "/").getLast! == (t'.splitOn "/").getLast!) == sameName)) || sharedLock rest sameName
 
 def targets (d : JDep) : List String :=
   (d.args.filter (·.startsWith gwFlagS)).map (fun a => (a.drop gwFlagS.length).toString)
@@ -147,7 +165,7 @@ def allDistinct : List String → Bool
   | a :: l => !l.contains a && allDistinct l
 
 /-- clauses violated by one listing; `prev` is the listing after the previous batch -/
-def judgeSnap (gc : String) (prev : Option Snap) (s : Snap) : List String :=
+def judgeSnap (gc : String) (tmpl : Option (List String)) (prev : Option Snap) (s : Snap) : List String :=
   let classGws := (s.gws.filter (·.2 == gc)).map (·.1)
   let tg := s.deps.map targets
   let cnt (k : String) : Nat := (tg.filter (fun t => t == [k])).length
@@ -164,9 +182,18 @@ def judgeSnap (gc : String) (prev : Option Snap) (s : Snap) : List String :=
          then ["deployment-kept-after-class-change"] else ["deployment-for-other-class"]) ++
       (if d.args.contains updFlagS then [] else ["missing-update-status-flag"]) ++
       (if (d.args.filter (·.startsWith lockFlagS)).all (· == lockFlagS ++ nameOfKey t) then []
-       else ["lock-name-not-of-its-gateway"])
+       else ["lock-name-not-of-its-gateway"]) ++
+      (if (d.args.filter (·.startsWith updPrefixS)).length == 1 then [] else ["update-status-flag-count"]) ++
+      (match tmpl with
+       | none => []
+       | some tm =>
+         (if plainArgs d.args == plainArgs tm then [] else ["template-args-not-preserved"]) ++
+         (if (lockArgs d.args).length == (lockArgs tm).length then [] else ["lock-name-arg-count"]))
     | _ => ["bad-gateway-arg"]
-  let c3 := s.deps.flatMap perDep
+  let single := s.deps.filterMap (fun d => match targets d with | [t] => some (t, lockArgs d.args) | _ => none)
+  let c3 := s.deps.flatMap perDep ++
+    (if sharedLock single true then ["lock-name-shared-across-namespaces"] else []) ++
+    (if sharedLock single false then ["lock-name-shared"] else [])
   let c4 := if allDistinct (s.deps.map (·.name)) then [] else ["name-not-unique"]
   let c5 := if allDistinct (s.deps.map (·.sel)) then [] else ["selector-not-unique"]
   let c6 := if s.deps.all (fun d => d.sel == d.pod) then [] else ["selector-pod-label-mismatch"]
@@ -184,7 +211,7 @@ def judgeSnap (gc : String) (prev : Option Snap) (s : Snap) : List String :=
 def hasGC (gc : String) (s : Snap) : Bool := s.gcs.any (fun g => g.name == gc && g.ours)
 
 /-- fold over the listings; `seen` = the configured class existed in an earlier listing -/
-def judgeAll (gc : String) : Option Snap → Bool → List Snap → List String × Bool
+def judgeAll (gc : String) (tmpl : Option (List String)) : Option Snap → Bool → List Snap → List String × Bool
   | _, _, [] => ([], false)
   | prev, seen, s :: rest =>
     if s.panic != "-" then
@@ -192,8 +219,8 @@ def judgeAll (gc : String) : Option Snap → Bool → List Snap → List String 
         if seen then (["panic-configured-gatewayclass-deleted"], false) else ([], true)
       else (["panic:" ++ s.panic], false)
     else
-      let here := judgeSnap gc prev s
-      let (r, pre) := judgeAll gc (some s) (seen || hasGC gc s) rest
+      let here := judgeSnap gc tmpl prev s
+      let (r, pre) := judgeAll gc tmpl (some s) (seen || hasGC gc s) rest
       (here ++ r, pre)
 
 def judgeLine (line : String) : String :=
@@ -202,11 +229,16 @@ def judgeLine (line : String) : String :=
   | some gc, some sn =>
     match (listOf sn ";").mapM parseSnap with
     | some snaps =>
-      let (cl, pre) := judgeAll gc none false snaps
+      let (cl, pre) := judgeAll gc ((field fs "tmpl").map (listOf · "|")) none false snaps
       let cl := cl.eraseDups
       if cl.isEmpty then (if pre then "ok precondition" else "ok") else "fail " ++ ",".intercalate cl
     | none => "bad-op"
   | _, _ => "bad-op"
+
+def dnsLine (line : String) : String :=
+  match parseKey line with
+  | some k => (if dnsLabel k.ns then "1" else "0") ++ (if dnsSubdomain k.name then "1" else "0")
+  | none => "bad-op"
 
 def driver (args : List String) : IO UInt32 := do
   let stdin ← IO.getStdin
@@ -214,7 +246,8 @@ def driver (args : List String) : IO UInt32 := do
   match args with
   | ["model"] => forEachLine stdin fun l => stdout.putStrLn (modelLine l)
   | ["judge"] => forEachLine stdin fun l => stdout.putStrLn (judgeLine l)
-  | _ => IO.eprintln "usage: C18 model|judge"; return 2
+  | ["dns"] => forEachLine stdin fun l => stdout.putStrLn (dnsLine l)
+  | _ => IO.eprintln "usage: C18 model|judge|dns"; return 2
   return 0
 
 end NGF.Prov
